@@ -20,6 +20,9 @@ Emit == emitted => \A f \in Fields :
           P([spec |-> "Gadgets", gadget |-> "quotient_recompose", field |-> f, log_n |-> n, chunks |-> c, zk |-> zk, point |-> pt])
     /\ \A n \in 0..MaxLogN : \A pl \in 0..n : \A pt \in {"random", "in_domain", "one"} :
           P([spec |-> "Gadgets", gadget |-> "periodic", field |-> f, log_n |-> n, period_log |-> pl, point |-> pt])
+    \* several periodic columns of one AIR: every ORDER of periods (the gadget may share work between columns)
+    /\ \A n \in 0..(IF MaxLogN < 4 THEN MaxLogN ELSE 4) : \A pls \in UNION { [1..k -> 0..n] : k \in 2..3 } :
+          P([spec |-> "Gadgets", gadget |-> "periodic", field |-> f, log_n |-> n, period_logs |-> pls, shift |-> "generator", point |-> "random"])
     /\ \A len \in 1..MaxLen : \A pt \in {"random", "zero", "one"} :
           P([spec |-> "Gadgets", gadget |-> "eval_poly", field |-> f, len |-> len, point |-> pt])
     /\ \A e \in Exponents : \A pt \in {"random", "zero", "one"} :
